@@ -85,6 +85,10 @@ where
         self.solve_time = 0f64;
 
         timers.reset_timer("solve");
+        // "post-process" is a root timer as well: without this its time would
+        // accumulate over repeated solves of the same solver object and count
+        // towards solve_time and the time limit of every later solve
+        timers.reset_timer("post-process");
     }
 
     fn post_process(&mut self, residuals: &DefaultResiduals<T>, settings: &DefaultSettings<T>) {
